@@ -31,6 +31,7 @@ func init() {
 
 	addSelfTests("C16",
 		mutation{"memory-listing-stops-at-placeholder", "kv/memory/kv.go", "			if !strings.HasPrefix(key, string(prefix)) {\n				return true\n			}", "			if !strings.HasPrefix(key, string(prefix)) {\n				return true\n			}\n			if v.isDeleted() {\n				return false\n			}", "listing"},
+		mutation{"aof-put-swallows-writer-error", "kv/aof/mutation.go", "func (d *DiskKV) Put(ctx context.Context, key []byte, value []byte) error {\n	return d.mutationHandler(func(mut *proto.Mutation) {\n		mut.Type = proto.MutationType_SIMPLE_PUT\n		mut.Key = key\n		mut.Value = value\n	})\n}", "func (d *DiskKV) Put(ctx context.Context, key []byte, value []byte) error {\n	d.mutationHandler(func(mut *proto.Mutation) {\n		mut.Type = proto.MutationType_SIMPLE_PUT\n		mut.Key = key\n		mut.Value = value\n	})\n	return nil\n}", "aof-writer-verdict"},
 		mutation{"aof-wrong-case", "kv/aof/mutation.go", "		err = d.memKv.PrefixRemove(context.Background(), mut.GetKey(), mut.GetValue())", "		err = d.memKv.PrefixAppend(context.Background(), mut.GetKey(), mut.GetValue())", "aof-dispatch"},
 		mutation{"aof-wrong-type", "kv/aof/mutation.go", "		mut.Type = proto.MutationType_SIMPLE_DELETE\n", "		mut.Type = proto.MutationType_SIMPLE_PUT\n", "aof-logged-type"},
 		mutation{"sqlite-prefixremove-conflict", "kv/sqlite3/prefix.go", "		_, err := tx.StmtContext(ctx, s.stmts.prefixRemove).Exec(prefix, child)\n		if err != nil {\n			return err\n		}", "		res, err := tx.StmtContext(ctx, s.stmts.prefixRemove).Exec(prefix, child)\n		if err != nil {\n			return err\n		}\n		if n, _ := res.RowsAffected(); n == 0 {\n			return chord.ErrKVPrefixConflict\n		}", "contract"},
@@ -292,6 +293,27 @@ func runC16(c *Ctx) {
 			}
 		}
 		c.Ob("aof-logged-type", "aof."+m, fn.Decl.Pos(), ok, "logs "+w.typ+" with its own parameters: "+det)
+		// the writer's verdict (closed store, failed log append, rejected mutation)
+		// reaches the caller: every return of the method yields the error of its
+		// mutationHandler call (sibling agreement over the six mutating methods)
+		if m == "RemoveKeys" {
+			// listed exception: RemoveKeys is fire-and-forget in this backend by the project's
+			// own contract - kv/aof TestEverything asserts RemoveKeys returns nil on a closed
+			// store ("no-op"), and the only caller (the hand-off) merely logs its error
+			c.Note("aof.RemoveKeys drops its writer's error by design (TestEverything asserts nil after Stop); not armed")
+		} else if len(calls) == 1 {
+			verdict := true
+			for _, r := range fn.Returns() {
+				if len(r.Results) == 0 {
+					continue
+				}
+				last := r.Results[len(r.Results)-1]
+				if ast.Unparen(last) != ast.Expr(calls[0]) && !strings.HasSuffix(fn.Prov(last), "mutationHandler()") && !strings.HasSuffix(fn.Prov(last), "mutationHandler()#0") {
+					verdict = false
+				}
+			}
+			c.Ob("aof-writer-verdict", "aof."+m+"#returns-the-writer's-error", fn.Decl.Pos(), verdict, "the method returns what the single writer answered: a mutation that was not logged/applied (store closed, log write failed, rejected) is not reported as success")
+		}
 	}
 
 	memoryWriteEffects(c, "keyspace-independence")
